@@ -471,9 +471,11 @@ def get_parser(desc):
 LAST_GIVEN = [None]
 
 
-def real_parse(desc, channel, inp, keep=False):
+def real_parse(desc, channel, inp, keep=False, skip_validation=False):
     """run the real parser on one case; returns the canonical observation
-    {"ok": wire} | {"err": "reject"} | {"err": "crash:<Type>"} (+ the namespace when keep=True)"""
+    {"ok": wire} | {"err": "reject"} | {"err": "crash:<Type>"} (+ the namespace when keep=True).
+    skip_validation: only the apply pass (`_skip_validation=True`), the result before the parser re-checks it"""
+    kw = {"_skip_validation": True} if skip_validation else {}
     from jsonargparse import ArgumentError
 
     try:
@@ -491,9 +493,9 @@ def real_parse(desc, channel, inp, keep=False):
         LAST_GIVEN[0] = enc(given, sort_sets=False)      # sets in the iteration order the parser is going to see
     try:
         if channel == "obj":
-            cfg = p.parse_object({"k": given})
+            cfg = p.parse_object({"k": given}, **kw)
         else:
-            cfg = p.parse_args(["--k=" + inp])
+            cfg = p.parse_args(["--k=" + inp], **kw)
         try:
             obs = {"ok": canon(enc(cfg.k))}          # snapshot immediately
         except Unencodable as ex:
@@ -1098,12 +1100,23 @@ def exhaustive_small(ctx):
     return cases
 
 
+def norm_input(ch, inp):
+    """a wire value that denotes a Python value exactly: sets de-duplicated the way Python does ({1, True} is {1})"""
+    if ch != "obj":
+        return inp
+    try:
+        return enc(to_py(inp))
+    except TypeError:
+        raise Unencodable("not a python value")
+
+
 def correspond_and_judge(ctx: Ctx, run: Run, cases, variants, label):
     """runs the real parser and the model on `cases`; returns the list of disagreements"""
     items, metas = [], []
     skipped = 0
     for desc, ch, inp, origin in cases:
         try:
+            inp = norm_input(ch, inp)
             obs, given = run.obs_given(desc, ch, inp)
             item = model_item(desc, ch, given)
         except Unencodable:
